@@ -16,6 +16,18 @@ package main
 //             formed (cross-checks Rpm.pkg_ok, the hypothesis of the theorems)
 //   report    input = package description, impl = file.RPMFile on the Go writer's bytes
 //             (cross-checks Rpm.report, the right-hand side of C19_faithful)
+//   gencode   input = layout description (lead, two arbitrary (index, store) pairs, padding,
+//             payload), impl = the Go writer's bytes (cross-checks Rpm.gencode)
+//   gwf       input = (layout, packets under the four signature tags), impl = 1 (cross-checks
+//             Rpm.gpkg_ok / gsigs_ok, the hypotheses of the *_layout theorems)
+//   greport   same input, impl = file.RPMFile on the bytes (cross-checks Rpm.greport)
+//   layout    input = (data declared-headers), impl = go-rpm's parse; the spec checker demands for
+//             every declared entry the typed value that lies at its declared offset
+//   gsigenc / gsigwf / gsigview   input = signature packet description (header form, version,
+//             subpacket lists, MPIs with bit counts), impl = the Go writer's bytes / 1 / packet.Read
+//             on them (cross-check Rpm.gencode_sig, gsig_ok, gsig_view)
+//   sigpkt    input = (bytes oracle truth), impl = packet.Read; the spec checker compares version,
+//             algorithm, hash and issuer with what the generator stored
 //   alloc     input = (data), impl = (outcome MiB-allocated) measured in-process on inputs
 //             whose length fields are moderately large           [oracle only]
 //   isolated  input = (data), impl = outcome of inspecting the file in a worker child with a
@@ -1138,7 +1150,7 @@ func layOut(r *Rng, items []lItem, regionTag uint32, mode int, residue int) (gHd
 	if need && tail == 0 {
 		junk(1)
 	}
-	for (len(store)+tail)%8 != residue {
+	for (len(store)+tail)%8 != residue && nIdx > 0 {
 		junk(1)
 	}
 	if mode == 1 {
@@ -1311,6 +1323,9 @@ func randLayout(r *Rng, n int) (g gPkg, truth Sx, sigs [4]*gSig) {
 		sigItems = append(sigItems, lItem{Tag: unknownTag(), Type: []uint32{1, 2, 7}[r.Intn(3)], Alias: -1, Whole: true})
 	}
 	sigMode, mainMode := []int{0, 1, 1, 2}[r.Intn(4)], []int{0, 1, 1, 2}[r.Intn(4)]
+	if n%32 == 7 { // a signature header with no entries and an empty store
+		sigItems, sigMode = nil, 0
+	}
 	var sigIdx, mainIdx []lItem
 	g = gPkg{Major: p.Major, Minor: p.Minor, LeadRest: buildLead(p.Major, p.Minor, p.Name)[6:]}
 	g.Sig, sigIdx = layOut(r, sigItems, 62, sigMode, n%8)
